@@ -234,7 +234,7 @@ var quirks = []quirkModel{
 }
 
 func init() {
-	quirks = append(quirks, quirkModel{
+	quirks = append([]quirkModel{{ // the still-open defect goes first; models of repaired ones stay to name a regression
 		// convert.go scanEscape: every \uHHHH becomes \x{HHHH} on its own, so a
 		// lead/trail surrogate pair turns into two code points that no UTF-8
 		// subject can hold instead of the one astral code point it denotes
@@ -282,7 +282,7 @@ func init() {
 				return n
 			})
 		},
-	})
+	}}, quirks...)
 }
 
 // isPropSeq recognises the literal sequence the transformation above planted
